@@ -72,6 +72,17 @@ def run(ctx):
         if fr[-1] == "-" or len(fr) == 1:
             for st2 in stops:
                 add(frames[0] % (" ".join(fr), st2 if st2 != "end" else ""), "expression fragment")
+    # long sources: whatever bookkeeping the lexer keeps per rune must not care where a token boundary falls (4096-byte buffers, position history, ...)
+    pads = list(range(4070, 4110)) + [8170 + k for k in range(0, 40, 3)] if quick else list(range(3990, 4210)) + list(range(8100, 8300)) + list(range(12200, 12400))
+    for pad in pads:
+        add("find all" + " " * pad + "'a'", "long source")
+        add("find all 'a'" + "\n" * pad + "bogus", "long source")
+        add("find all 'a' -- " + "c" * pad + "\nfind all 'b'", "long source")
+        add("find all exactly " + "0" * pad + "2 'a'", "long source")
+        add("find all 'a'" + " " * pad, "long source")
+    body = " ".join("find all at least %d 'x%d' = v%d" % (i % 7, i, i) for i in range(300))
+    for lead in range(0, 41 if quick else 200, 1 if quick else 1):
+        add(" " * lead + body, "long source")
     # deep nesting: the parser recursion is bounded by the token count
     for n in (50, 400) if quick else (50, 400, 3000):
         add("find all " + "(" * n + "'a'" + ")" * n, "deep nesting")
